@@ -138,16 +138,45 @@ func walkTrie(k, n int, rows [][]float64, nf int, exec func(in [][]float64) *Ind
 	rec(nil, nil)
 }
 
-func setScale(in [][]float64) {
-	m := 1.0
-	for _, c := range in {
-		for _, x := range c {
-			if math.Abs(x) > m {
-				m = math.Abs(x)
+func setScale(in [][]float64) { setScaleFields(nil, in) }
+
+// setScaleFields sets ref.Scale to the magnitude of the input in its own unit (quotes of 1e-12 are as legitimate as
+// quotes of 1e+9): the largest absolute PRICE (a denominator is "numerically zero" relative to the prices; volumes of
+// ordinary size would otherwise hide a tiny price unit), the largest absolute value if there is no price field; 1 for an
+// all-zero input.
+func setScaleFields(fields []string, in [][]float64) {
+	scan := func(vol bool) float64 {
+		m := 0.0
+		for f, c := range in {
+			if fields != nil && f < len(fields) && isVolumeField(fields[f]) != vol {
+				continue
+			}
+			for _, x := range c {
+				if a := math.Abs(x); a > m && !math.IsInf(a, 0) {
+					m = a
+				}
 			}
 		}
+		return m
+	}
+	m := scan(false)
+	if m == 0 && fields != nil {
+		m = scan(true)
+	}
+	if m == 0 {
+		m = 1
 	}
 	ref.Scale = m
+}
+
+// outFloor is the magnitude below which a difference in output j is rounding: the input scale raised to the output's
+// homogeneity degree in the prices (1 for a pure number such as an oscillator in per cent; the input scale itself when the
+// catalogue records no degree).
+func outFloor(e *cat.Ind, j int) float64 {
+	if e.PriceDeg == nil || j >= len(e.PriceDeg) {
+		return math.Max(ref.Scale, 1)
+	}
+	return math.Pow(ref.Scale, float64(e.PriceDeg[j]))
 }
 
 func toRef(in [][]float64) []ref.S {
@@ -170,9 +199,11 @@ type indCase struct {
 
 // compareRef compares outputs with a position-aligned reference. It returns the
 // first mismatch description ("" if none) and the numbers of compared and exempt positions.
-func compareRef(outs [][]float64, refs []ref.S, w int) (string, int, int) {
+func compareRef(e *cat.Ind, outs [][]float64, refs []ref.S, w int) (string, int, int) {
 	cmp, ex := 0, 0
+	defer func() { ref.Floor = 0 }()
 	for j := range outs {
+		ref.Floor = outFloor(e, j)
 		if j >= len(refs) {
 			return fmt.Sprintf("output %d has no reference", j), cmp, ex
 		}
@@ -272,9 +303,9 @@ func indTrieUnit(c *core.Ctx, e *cat.Ind, cfg []float64, prop string) {
 				}
 			}
 		case "C01":
-			setScale(nd.in)
+			setScaleFields(e.In, nd.in)
 			refs := e.Ref(cfg, toRef(nd.in))
-			msg, cm, ex := compareRef(r.Outs, refs, w)
+			msg, cm, ex := compareRef(e, r.Outs, refs, w)
 			compared += int64(cm)
 			exempt += int64(ex)
 			if cm > 0 {
@@ -283,7 +314,7 @@ func indTrieUnit(c *core.Ctx, e *cat.Ind, cfg []float64, prop string) {
 			if msg != "" {
 				key := ""
 				for k2, f := range e.AsIs {
-					if m2, _, _ := compareRef(r.Outs, f(cfg, toRef(nd.in)), w); m2 == "" {
+					if m2, _, _ := compareRef(e, r.Outs, f(cfg, toRef(nd.in)), w); m2 == "" {
 						key = k2
 						break
 					}
@@ -359,7 +390,7 @@ func indTrieUnit(c *core.Ctx, e *cat.Ind, cfg []float64, prop string) {
 			if e.Range == nil {
 				return
 			}
-			setScale(nd.in)
+			setScaleFields(e.In, nd.in)
 			refs := e.Ref(cfg, toRef(nd.in))
 			for k2 := 0; ; k2++ {
 				p := k2 + w
@@ -456,20 +487,31 @@ func indTrieUnit(c *core.Ctx, e *cat.Ind, cfg []float64, prop string) {
 			if len(word) > want+want/8 {
 				word = word[:want+order] // a prefix of the sequence is long enough; not every window occurs then
 			}
-			in := make([][]float64, len(e.In))
-			for f := range in {
-				col := make([]float64, len(word))
-				for i, sy := range word {
-					col[i] = lrows[sy][f]
-				}
-				in[f] = col
+			// the formulas and ranges are those of the values as given, in whatever unit: the long series is also judged
+			// with all prices in a unit 2^40 times larger (quotes of 1e-12) and 2^30 times smaller, volumes untouched
+			scales := []float64{1}
+			if (prop == "C01" || prop == "C15") && want == minLen {
+				scales = []float64{1, 1.0 / (1 << 40), 1 << 30}
 			}
-			nd := &trieNode{word: word, in: in, run: exec(in)}
-			c.Only = ""
-			ref.Rel, ref.LongSeries = 1e-9*float64(len(word))/10, true
-			visit(nd, nil)
-			ref.Rel, ref.LongSeries = 1e-9, false
-			c.Notes[fmt.Sprintf("%s long series (%d)", label, len(word))] = map[string]any{"symbols": len(lrows), "de_bruijn_order": order, "length": len(word), "events": nd.run.Res.Events}
+			for _, scale := range scales {
+				in := make([][]float64, len(e.In))
+				for f := range in {
+					col := make([]float64, len(word))
+					for i, sy := range word {
+						col[i] = lrows[sy][f]
+						if !isVolumeField(e.In[f]) {
+							col[i] *= scale
+						}
+					}
+					in[f] = col
+				}
+				nd := &trieNode{word: word, in: in, run: exec(in)}
+				c.Only = ""
+				ref.Rel, ref.LongSeries = 1e-9*float64(len(word))/10, true
+				visit(nd, nil)
+				ref.Rel, ref.LongSeries = 1e-9, false
+				c.Notes[fmt.Sprintf("%s long series (%d, prices x %g)", label, len(word), scale)] = map[string]any{"symbols": len(lrows), "de_bruijn_order": order, "length": len(word), "events": nd.run.Res.Events}
+			}
 		}
 	}
 	c.States += nodes
@@ -541,6 +583,9 @@ func deBruijn(k, minLen int) ([]int, int) {
 		}
 	}
 	db(1, 1)
+	// the cyclic sequence starts with `order` zeros; rotated so that this flat stretch (0/0 in every ratio of changes,
+	// after which recursive indicators are exempt for good) comes at the end instead of at the very start
+	seq = append(seq[order:], seq[:order]...)
 	return append(seq, seq[:order-1]...), order
 }
 
